@@ -25,4 +25,10 @@ theorem validate_limits : Facts.llo_ValidateObservation_cmps =
 theorem lifecycle_strings : Facts.llo_LifeCycleStageStaging = "staging" ∧
     Facts.llo_LifeCycleStageProduction = "production" ∧ Facts.llo_LifeCycleStageRetired = "retired" := ⟨rfl, rfl, rfl⟩
 
+/-- the predecessor digest stored in the decoded on-chain config is a copy (array conversion of the slice,
+    then the address of that local array), never a pointer into the caller's buffer: the model's `env.check`
+    is a function of the attestation bytes alone because the digest it is checked against never changes -/
+theorem predecessor_digest_copied : Facts.llo_onchain_decode_digest =
+    ["types.ConfigDigest(b[32:64])", "&cd"] := by decide
+
 end DSV.Props.C06.Facts
